@@ -191,7 +191,7 @@ impl Runnable for Cfg {
                     .ncomponents(k)
                     .gfunc(g)
                     .max_iter(80)
-                    .random_state((self.rng_seed % 1_000_000) as usize)
+                    .random_state(self.rng_seed as usize)
                     .fit(&DatasetBase::from(x))
                 {
                     Ok(m) => {
@@ -219,6 +219,9 @@ impl Runnable for Cfg {
             Algo::FastIcaSeeded => "fast_ica_with_random_state",
         });
         obs.class_if(self.algo == Algo::Pca && self.flag, "pca_whitened");
+        let seeded = matches!(self.algo, Algo::GaussianProjection | Algo::SparseProjection | Algo::FastIcaSeeded);
+        obs.class_if(seeded && crate::BOUNDARY_SEEDS.contains(&self.rng_seed), "boundary_rng_seed");
+        obs.class_if(seeded && self.rng_seed == 0, "rng_seed_zero");
         obs.class_if(self.wide, "more_than_64_features");
         obs.class_if(self.algo == Algo::DiffusionMap && self.sparse_k > 0, "diffusion_map_sparse_kernel");
         // non-trivial: the estimator draws random numbers (seeded explicitly or by a builder default)
@@ -247,7 +250,7 @@ pub fn strategy(tier: Tier) -> impl Strategy<Value = Cfg> {
         1 => Just(Algo::PlsSvd),
         2 => Just(Algo::FastIcaSeeded),
     ];
-    (algo, any::<u64>(), any::<u64>(), 15usize..=max_n, 2usize..=6, 1usize..=4, any::<bool>(), 0usize..=4, proptest::bool::weighted(0.12)).prop_map(
+    (algo, any::<u64>(), crate::seed_strategy(), 15usize..=max_n, 2usize..=6, 1usize..=4, any::<bool>(), 0usize..=4, proptest::bool::weighted(0.12)).prop_map(
         |(algo, data_seed, rng_seed, n, p, k, flag, sparse_k, wide)| Cfg {
             algo,
             data_seed,
@@ -261,4 +264,25 @@ pub fn strategy(tier: Tier) -> impl Strategy<Value = Cfg> {
             wide: wide && !matches!(algo, Algo::DiffusionMap | Algo::FastIcaSeeded),
         },
     )
+}
+
+/// Every boundary seed through every seeded estimator of this family, in every run.
+pub fn boundary_seed_cases() -> Vec<Cfg> {
+    let mut v = vec![];
+    for (i, &seed) in crate::BOUNDARY_SEEDS.iter().enumerate() {
+        for algo in [Algo::FastIcaSeeded, Algo::GaussianProjection, Algo::SparseProjection] {
+            v.push(Cfg {
+                algo,
+                data_seed: 0x1ca0 + i as u64,
+                rng_seed: seed,
+                n: 60,
+                p: 4,
+                k: 2 + i % 2,
+                flag: true,
+                sparse_k: 0,
+                wide: false,
+            });
+        }
+    }
+    v
 }
